@@ -31,8 +31,14 @@ func (c exactEqualsComparator) eq(a, b Coordinates) bool {
 	if a.Type != b.Type {
 		return false
 	}
-	asb := a.XY.Sub(b.XY)
-	if asb.lengthSq() > c.toleranceSq {
+	if c.toleranceSq == 0 {
+		// Without a tolerance the XY values must be identical. Going via the
+		// squared distance would be wrong, because it underflows to zero for
+		// distinct points that are very close to each other.
+		if a.XY != b.XY {
+			return false
+		}
+	} else if asb := a.XY.Sub(b.XY); asb.lengthSq() > c.toleranceSq {
 		return false
 	}
 	if a.Type.Is3D() && a.Z != b.Z {
